@@ -2247,6 +2247,8 @@ def replay(ctx, payload) -> int:
     if case.get("kind") == "history":
         c = case_unjson(case["case"])
         res = bounded_case(c, os.path.join(ctx.scratch, "replay"))
+        if res.get("refused"):
+            print("  the table schema itself is refused:", res["refused"])
         for ev in res["trace"]:
             print("  step", ev["step"], ev["variant"], ev["handle"], ev["outcome"], ev.get("error", ""), "scan:", ev["scan"])
         if res["violations"]:
